@@ -1,10 +1,74 @@
 import AcraModel.Basic.Bytes
-/-! Driver ops for C20. -/
+import AcraModel.Crypto.Shim
+import AcraModel.AuditLog.Parse
+/-! Driver ops for C20 (audit-log integrity chain). Crypto instance: `shimOps` (real SHA-256 / HMAC-SHA256),
+so every tag is recomputed exactly. -/
 namespace Driver.C20
-open AcraModel
+open AcraModel AcraModel.AuditLog Generated.AuditLog
+
+def C := shimOps
+
+def modeOf : String → Option (SplitMode × Bool × Nat)
+  | "plaintext" => some (SplitMode.ofString plaintextSplitMode, plaintextTrimsTag, plaintextHookCut)
+  | "cef" => some (SplitMode.ofString cefSplitMode, cefTrimsTag, cefHookCut)
+  | _ => none
+
+def b01 : Bool → String | true => "1" | false => "0"
+
+def lineStr : Line → String
+  | .skip => "skip"
+  | .bad => "bad"
+  | .entry e => s!"entry {hexOf e.data} {hexOf e.tag} {b01 e.isNew} {b01 e.isEnd}"
+
+def kindStr : FailKind → String
+  | .parse => "parse" | .missingEnd => "missing-end" | .mismatch => "mismatch"
+
+def verdictStr : Verdict → String
+  | .ok => "ok"
+  | .fail i k => s!"fail {i} {kindStr k}"
+
+def parseSpec (s : String) : Option Line :=
+  match s.splitOn ":" with
+  | ["s"] => some .skip
+  | ["b"] => some .bad
+  | ["e", d, t, n, e] => do
+    let d ← ofHex d; let t ← ofHex t
+    pure (.entry ⟨d, t, n == "1", e == "1"⟩)
+  | _ => none
 
 def handle (op : String) (args : List String) : Option String :=
   match op, args with
+  | "calc", key :: items => do
+    -- items: <datahex>:<reset01>  →  <taghex>:<new01> …
+    let key ← ofHex key
+    let its ← items.mapM fun it => match it.splitOn ":" with
+      | [d, r] => do let d ← ofHex d; pure (⟨d, false, r == "1"⟩ : PItem)
+      | _ => none
+    let es := produce C key (Calc.new C key) its
+    pure (" ".intercalate (es.map fun e => s!"{hexOf e.tag}:{b01 e.isNew}"))
+  | "produce", fmt :: key :: items => do
+    -- items: <formatter output hex incl. trailing bytes>:<reset01>  →  hex of the log file
+    let (_, _, cutN) ← modeOf fmt
+    let key ← ofHex key
+    let its ← items.mapM fun it => match it.splitOn ":" with
+      | [d, r] => do
+        let d ← ofHex d
+        if d.length < cutN then none else pure (⟨d.take (d.length - cutN), r == "1"⟩ : LItem)
+      | _ => none
+    let ls := produceLines C key (Calc.new C key) its
+    pure (hexOf (ls.flatMap fun l => l ++ [10]))
+  | "parse", [fmt, line] => do
+    let (mode, trim, _) ← modeOf fmt
+    let line ← ofHex line
+    pure (lineStr (parseLine mode trim line))
+  | "verify", [fmt, key, file] => do
+    let (mode, trim, _) ← modeOf fmt
+    let key ← ofHex key; let file ← ofHex file
+    pure (verdictStr (verify C key ((scanLines file).map (parseLine mode trim))))
+  | "verifyp", key :: _file :: specs => do
+    let key ← ofHex key
+    let ls ← specs.mapM parseSpec
+    pure (verdictStr (verify C key ls))
   | _, _ => none
 
 end Driver.C20
